@@ -1,6 +1,7 @@
 import WitnessVerif.Proofs.CoreRun
 import WitnessVerif.Proofs.BytesRun
 import WitnessVerif.Props.C05
+import WitnessVerif.Proofs.BastionRun
 /-
 C01 — everything the witness cosigns for a log is one append-only history.
 `Core.Ext H e a b` ("b extends a"): sizes do not decrease, equal sizes have equal roots, and if `b`
@@ -121,5 +122,20 @@ theorem C01_no_split_view_concurrent (cfg : Cfg) (e : Bytes) (hinj : M.Inj cfg.H
     | some b => simp [s, Store.get]
   have hrun := C05.replays_is_run cfg id reqs hall s0 _ _ hlin.1 s hs
   exact ⟨hrun.1, hlin.2.1, (C01_append_only_bytes cfg e hinj id l hl order s).1⟩
+
+end C01
+
+namespace C01
+open Wit Bastion
+
+/-- C01 seen from the network: whatever sequence of add-checkpoint request bodies reaches the bastion endpoint
+    (malformed, oversized, rate-limited, naming any origin, carrying any old size and proof), the witness state
+    after it is the state of the sequential witness after the requests that got through, and the checkpoints
+    cosigned for any one log along the way are pairwise append-only. -/
+theorem C01_append_only_through_endpoint (cfg : Cfg) (h : HCfg) (e : Bytes) (hinj : M.Inj cfg.H) (id : Bytes) (l : LogInfo)
+    (hl : cfg.find id = some l) (ps : List (Bool × Bytes)) (s : Store) :
+    (session cfg h s ps).1 = (run cfg s (ps.filterMap (asked h))).1 ∧
+    (acceptedFor cfg l id s (ps.filterMap (asked h))).Pairwise (Core.Ext cfg.H e) :=
+  ⟨session_store cfg h ps s, (C01_append_only_bytes cfg e hinj id l hl _ s).1⟩
 
 end C01
